@@ -93,7 +93,7 @@ func mkBLS[
 			return &keyMat{sh, sk}, nil
 		})
 	}
-	// the reference point [sk]*H_dst(msg) with H from the library
+	// the reference point [sk]*H_dst(msg); H from the library, checked to lie in the r-torsion subgroup
 	want := func(sk *big.Int, dst string, msg []byte) (curve.WPoint[SE], error) {
 		hm, err := sigGroup.HashWithDst(dst, msg)
 		if err != nil {
@@ -103,10 +103,13 @@ func mkBLS[
 		if err != nil {
 			return curve.WPoint[SE]{}, err
 		}
+		if h.Inf || !refS.InSubgroup(h) {
+			return curve.WPoint[SE]{}, fmt.Errorf("the library's hash-to-curve output is the identity or outside the r-torsion subgroup")
+		}
 		return sig.BLSSign(refS, sk, h), nil
 	}
-	// refVerify: the independent verdict on (pk, message, signature) for the mode
-	refVerify := func(km *keyMat, pk PK, mode blsMode, raw []byte, sg sigT) (bool, string) {
+	// keyOK: the group public key is [sk]*G for the secret reconstructed from the dealt shares (once per key)
+	keyOK := func(km *keyMat, pk PK) (bool, string) {
 		P, err := keyToRef(pk)
 		if err != nil {
 			return false, fmt.Sprintf("public key is not a point of the reference group: %v", err)
@@ -114,11 +117,28 @@ func mkBLS[
 		if P.Inf || !refK.Equal(P, sig.BLSPublicKey(refK, km.sk)) {
 			return false, "group public key != [sk]*G for the secret reconstructed from the dealt shares"
 		}
+		return true, ""
+	}
+	// refVerify: the independent verdict on (message, signature) for the mode, under the key checked by keyOK.
+	// sigma == [sk]*H(m) != O with H(m) in the subgroup also settles subgroup membership of sigma. wantMemo caches
+	// the expected points of one execution (BLS signatures are deterministic: every quorum must produce the same).
+	refVerify := func(memo map[string]curve.WPoint[SE], km *keyMat, pk PK, mode blsMode, raw []byte, sg sigT) (bool, string) {
+		expect := func(dst string, msg []byte) (curve.WPoint[SE], error) {
+			k := dst + "|" + string(msg)
+			if w, ok := memo[k]; ok {
+				return w, nil
+			}
+			w, err := want(km.sk, dst, msg)
+			if err == nil {
+				memo[k] = w
+			}
+			return w, err
+		}
 		internal := raw
 		if mode.alg == bls.MessageAugmentation {
 			internal = slices.Concat(pk.Bytes(), raw)
 		}
-		w, err := want(km.sk, blsDST[sigGroupName][mode.alg], internal)
+		w, err := expect(blsDST[sigGroupName][mode.alg], internal)
 		if err != nil {
 			return false, fmt.Sprintf("hash to curve: %v", err)
 		}
@@ -126,10 +146,7 @@ func mkBLS[
 		if err != nil {
 			return false, fmt.Sprintf("signature is not a point of the reference group: %v", err)
 		}
-		if sv.Inf || !refS.InSubgroup(sv) {
-			return false, "signature is the identity or outside the r-torsion subgroup"
-		}
-		if !refS.Equal(sv, w) {
+		if sv.Inf || !refS.Equal(sv, w) {
 			return false, "sigma != [sk]*H(m)"
 		}
 		if mode.alg == bls.POP {
@@ -137,12 +154,12 @@ func mkBLS[
 			if pop == nil {
 				return false, "proof-of-possession mode but the signature carries no proof"
 			}
-			wp, err := want(km.sk, blsPopDST[sigGroupName], pk.Bytes())
+			wp, err := expect(blsPopDST[sigGroupName], pk.Bytes())
 			if err != nil {
 				return false, fmt.Sprintf("hash to curve (pop): %v", err)
 			}
 			pv, err := sigToRef(pop.Value())
-			if err != nil || !refS.Equal(pv, wp) {
+			if err != nil || pv.Inf || !refS.Equal(pv, wp) {
 				return false, fmt.Sprintf("proof of possession != [sk]*H_pop(pk) (err=%v)", err)
 			}
 		}
@@ -176,6 +193,25 @@ func mkBLS[
 		seed := engine.Seed()
 		pkObj := km.shards[a.IDs[0]].PublicKey()
 		pk := pkObj.Value()
+		if ok, why := keyOK(km, pk); !ok {
+			x.Failf(fk+"/public-key", "%s: %s", where, why)
+		}
+		memo := map[string]curve.WPoint[SE]{}
+		// verdicts per (message, signature bytes): every quorum must produce the same bytes, so each verifier runs once
+		type verdict struct {
+			ok  bool
+			why string
+		}
+		refSeen, libSeen := map[string]verdict{}, map[string]error{}
+		refV := func(mi int, b []byte, sg sigT) (bool, string) {
+			k := fmt.Sprintf("%d|%x", mi, b)
+			if v, ok := refSeen[k]; ok {
+				return v.ok, v.why
+			}
+			ok, why := refVerify(memo, km, pk, mode, message(mi), sg)
+			refSeen[k] = verdict{ok, why}
+			return ok, why
+		}
 		nAcc, nRef, nEmpty := 0, 0, 0
 		for _, qm := range s.qualified {
 			quorum := catalog.Subset(a.IDs, qm)
@@ -234,7 +270,7 @@ func mkBLS[
 					}
 				}
 				// (3) independent verdict
-				if ok, why := refVerify(km, pk, mode, raw, firstSig); !ok {
+				if ok, why := refV(mi, first, firstSig); !ok {
 					x.Failf(fk+"/independent-verifier-rejects", "%s: the independent verifier rejects the signature %x: %s", cw, first, why)
 				}
 				// (4) the library's single-party verifier (the object and its CBOR-decoded copy)
@@ -242,15 +278,24 @@ func mkBLS[
 				if err != nil {
 					panic(engine.HarnessError{Msg: err.Error()})
 				}
-				if err := vf.Verify(firstSig, pkObj, raw); err != nil {
+				libV := func(mi int) error {
+					k := fmt.Sprintf("%d|%x", mi, first)
+					if e, ok := libSeen[k]; ok {
+						return e
+					}
+					e := vf.Verify(firstSig, pkObj, message(mi))
+					libSeen[k] = e
+					return e
+				}
+				if err := libV(mi); err != nil {
 					x.Failf(fk+"/library-verifier-rejects", "%s: the library verifier rejects the signature %x: %v", cw, first, err)
 				}
 				// (5) the next message of the alphabet is rejected by both
 				ni := nextMsg(mi)
-				if ok, _ := refVerify(km, pk, mode, message(ni), firstSig); ok {
+				if ok, _ := refV(ni, first, firstSig); ok {
 					x.Failf(fk+"/independent-verifier-accepts-other-message", "%s: the independent verifier accepts the signature for message %s", cw, msgNames[ni])
 				}
-				if err := vf.Verify(firstSig, pkObj, message(ni)); err == nil {
+				if err := libV(ni); err == nil {
 					x.Failf(fk+"/library-verifier-accepts-other-message", "%s: the library verifier accepts the signature for message %s", cw, msgNames[ni])
 				}
 				// (6b) unqualified sub-collections are refused by the aggregator
